@@ -38,9 +38,9 @@ func VerifC13API() {
 
 	// malformed keys are rejected and change nothing
 	bad := []vItem{
-		{"p": vS(k1.p)},                          // range key missing
-		{"s": vS(k1.s)},                          // hash key missing
-		{"p": vN("1"), "s": vS(k1.s)},             // hash key of another type
+		{"p": vS(k1.p)},               // range key missing
+		{"s": vS(k1.s)},               // hash key missing
+		{"p": vN("1"), "s": vS(k1.s)}, // hash key of another type
 		{"p": vS(k1.p), "s": &types.AttributeValueMemberBOOL{Value: true}}, // range key of another type
 		{"p": vS(k1.p), "s": &types.AttributeValueMemberNULL{Value: true}},
 	}
